@@ -210,6 +210,9 @@ class Module:
             self.tree = ast.parse(text, filename=path)
         except SyntaxError as e:
             raise AnalysisError(f'{path} does not parse: {e}') from e
+        # rename-invariance: locals are mapped back to the reference names
+        from . import dealpha
+        self.renamed_functions = dealpha.apply(self.tree, path)
         self.is_pkg = path.endswith('__init__.py')
         self.imports: dict[str, str] = {}
         self.functions: dict[str, FunctionInfo] = {}
